@@ -12,6 +12,7 @@ import (
 	"sort"
 	"strconv"
 	"strings"
+	"sync"
 
 	"mosn.io/api"
 	v2 "mosn.io/mosn/pkg/config/v2"
@@ -245,6 +246,7 @@ func routeName(ctx context.Context, r api.Route) string {
 type built struct {
 	full, twin types.Routers
 	err        string
+	concurrent bool // also look the request up from several goroutines at once and demand the same answers
 }
 
 func buildReal(vhs []vhost) built {
@@ -289,6 +291,34 @@ func observe(b built, rq request) string {
 			all = []string{"-"}
 		}
 		out = fmt.Sprintf("ok %s %s %s", vh, one, strings.Join(all, ","))
+		if b.concurrent {
+			const g = 6
+			res := make([]string, g)
+			var wg sync.WaitGroup
+			for i := 0; i < g; i++ {
+				wg.Add(1)
+				go func(i int) {
+					defer wg.Done()
+					defer func() {
+						if recover() != nil {
+							res[i] = "panic"
+						}
+					}()
+					cx := mkCtx(rq)
+					h2 := protocol.CommonHeader{}
+					for k, v := range rq.hdrs {
+						h2[k] = v
+					}
+					res[i] = routeName(cx, b.full.MatchRoute(cx, h2))
+				}(i)
+			}
+			wg.Wait()
+			for _, x := range res {
+				if x != one {
+					out = "nondeterministic " + one + " vs " + x
+				}
+			}
+		}
 	})
 	if bad {
 		_ = msg
@@ -589,6 +619,93 @@ func genRequest(c *hx.Ctx, r *hx.Rng, vhs []vhost) request {
 	return rq
 }
 
+// ---------------------------------------------------------------- update history
+
+var upSeq int
+
+func compiles(r rule) bool {
+	if r.regex != "" {
+		if _, err := regexp.Compile(r.regex); err != nil {
+			return false
+		}
+	}
+	return true
+}
+
+// safeDomain: a lower-case exact domain of virtual host i that AddRoute/RemoveAllRoutes resolve to i (priority 1)
+func safeDomain(vhs []vhost) (int, string) {
+	count := map[string]int{}
+	for _, vh := range vhs {
+		for _, d := range vh.domains {
+			count[strings.ToLower(d)]++
+		}
+	}
+	for i, vh := range vhs {
+		for _, d := range vh.domains {
+			if d == strings.ToLower(d) && !strings.ContainsAny(d, "*[]") && strings.Count(d, ":") <= 1 && d != "" && d != ":" &&
+				!strings.HasSuffix(d, ":") && !strings.HasPrefix(d, ":") && count[d] == 1 {
+				return i, d
+			}
+		}
+	}
+	return -1, ""
+}
+
+// buildViaManager reaches the configuration through the routers manager after an unrelated earlier configuration
+// was stored under the same name, then applies AddRoute / RemoveAllRoutes; it returns the configuration the router
+// must now behave as (a fresh NewRouters of it is the reference).
+func buildViaManager(c *hx.Ctx, r *hx.Rng, vhs []vhost) (built, []vhost) {
+	upSeq++
+	name := fmt.Sprintf("c04-%d-%d", c.Seed, upSeq)
+	mgr := router.GetRoutersMangerInstance()
+	prev := toV2(genConfig(c, r), false)
+	prev.RouterConfigName = name
+	_ = mgr.AddOrUpdateRouters(prev)
+	cur := toV2(vhs, false)
+	cur.RouterConfigName = name
+	if err := mgr.AddOrUpdateRouters(cur); err != nil {
+		return built{err: errTok(err)}, vhs
+	}
+	out := make([]vhost, len(vhs))
+	copy(out, vhs)
+	if i, d := safeDomain(vhs); i >= 0 {
+		switch k := r.Intn(100); {
+		case k < 45:
+			nr := genRule(c, r)
+			for !compiles(nr) {
+				nr = genRule(c, r)
+			}
+			j := len(out[i].rules)
+			m := toV2([]vhost{{rules: []rule{nr}}}, false).VirtualHosts[0].Routers[0]
+			m.Route.ClusterName = fmt.Sprintf("v%dr%d", i, j)
+			if err := mgr.AddRoute(name, d, &m); err != nil {
+				return built{err: "addRouteFailed"}, vhs
+			}
+			out[i].rules = append(append([]rule{}, out[i].rules...), nr)
+			c.Count("update=AddRoute")
+		case k < 60:
+			if err := mgr.RemoveAllRoutes(name, d); err != nil {
+				return built{err: "removeAllRoutesFailed"}, vhs
+			}
+			out[i].rules = nil
+			c.Count("update=RemoveAllRoutes")
+		default:
+			c.Count("update=replace-only")
+		}
+	} else {
+		c.Count("update=replace-only")
+	}
+	w := mgr.GetRouterWrapperByName(name)
+	if w == nil || w.GetRouters() == nil {
+		return built{err: "noRouters"}, out
+	}
+	twin, err := router.NewRouters(toV2(out, true))
+	if err != nil {
+		return built{err: "twin:" + errTok(err)}, out
+	}
+	return built{full: w.GetRouters(), twin: twin, concurrent: true}, out
+}
+
 // small-scope enumeration: every set of <= k domains of a fixed universe (one virtual host each) x every host
 var universe = []string{"*", "a.cc", "a.cc:80", "A.cc:*", "*.cc", "*.CC:80", "*.cc:*", "*.a.cc", "*a.cc", "*.a.cc:80", "*:80", "b.a.cc", "B.A.CC:80", "*cc", "*.b.a.cc:*"}
 var hostSet = []string{unset, "", "a.cc", "A.CC", "a.cc:80", "a.cc:81", "b.a.cc", "b.a.cc:80", "B.A.cc:8080", "c.b.a.cc", "c.b.a.cc:80", "ba.cc", "cc", ".cc", "x.cc:80",
@@ -644,6 +761,20 @@ func Run(c *hx.Ctx) {
 		}
 		for j := 0; j < n; j++ {
 			emit(c, "rt", vhs, b, genRequest(c, r, vhs))
+		}
+	}
+	// the same kind of configurations reached through the routers manager after an earlier configuration, AddRoute and
+	// RemoveAllRoutes, looked up concurrently: the answers must be those of the configuration now in force
+	for i := 0; i < c.N(120, 1500); i++ {
+		r := top.Fork()
+		vhs := genConfig(c, r)
+		b, now := buildViaManager(c, r, vhs)
+		n := 6
+		if b.err != "" {
+			n = 1
+		}
+		for j := 0; j < n; j++ {
+			emit(c, "up", now, b, genRequest(c, r, now))
 		}
 	}
 	// many long overlapping suffix chains on one port: sort.Sort leaves insertion sort (n > 12) and is unstable
